@@ -3,6 +3,9 @@ S = 'kawin/solver/Solver.py'
 I = 'kawin/solver/Iterators.py'
 G = 'kawin/GenericModel.py'
 ENTRIES = [
+    Entry('loop-iteration-cap-in-test', S, [('        while currTime < tf and not stop:', '        while currTime < tf and not stop and i < 100000000:')], 'R5.2'),
+    Entry('loop-iteration-cap-break', S, [('            i += 1\n\n        if verbose:', '            i += 1\n            if i >= 100000000:\n                break\n\n        if verbose:')], 'R5.2'),
+    Entry('loop-iteration-cap-return', S, [('            i += 1\n\n        if verbose:', '            i += 1\n            if i >= 100000000:\n                return\n\n        if verbose:')], 'R5.2'),
     Entry('clamp-min-max-nan', S, [('            dt = dt if dt > self._dtmin else self._dtmin\n            dt = dt if dt < self._dtmax else self._dtmax', '            dt = min(max(dt, self._dtmin), self._dtmax)')], 'R5.1'),
     Entry('clamp-order-swapped', S, [('            dt = dt if dt > self._dtmin else self._dtmin\n            dt = dt if dt < self._dtmax else self._dtmax', '            dt = dt if dt < self._dtmax else self._dtmax\n            dt = dt if dt > self._dtmin else self._dtmin')], 'R5.1'),
     Entry('clamp-upper-dropped', S, [('            dt = dt if dt < self._dtmax else self._dtmax\n', '')], 'R5.1'),
